@@ -2221,7 +2221,7 @@ ure_exec(ure_dfa_t dfa, int flags, ucs2_t *text, unsigned long textlen,
 #endif
 {
   int i, j, matched, found, skip;
-  unsigned long ms, me, acc_me;
+  unsigned long ms, me, acc_me, bol_steps = 0;
   ucs4_t c;
   ucs2_t *sp, *ep, *lp;
   _ure_dstate_t *stp;
@@ -2290,6 +2290,13 @@ ure_exec(ure_dfa_t dfa, int flags, ucs2_t *text, unsigned long textlen,
 	if (flags & URE_NOTBOL)
 	  break;
 	if (lp == text) {
+	  /*
+	   * Zero width: a DFA with a cycle of BOL transitions ("^+")
+	   * must not keep us here for ever.
+	   */
+	  if (bol_steps > dfa->nstates)
+	    break;
+	  bol_steps++;
 	  sp = lp;
 	  matched = 1;
 	} else if (_ure_isbrk(c)) {
